@@ -121,7 +121,7 @@ static void op_locate(void) {
   if (REF_SUCCESS != st) { fprintf(out, "%s\n", h_status(st)); return; }
   ref_grid_twod(to) = (REF_BOOL)twod;
   for (i = 0; i < k && REF_SUCCESS == st; i++) {
-    st = ref_node_add(ref_grid_node(to), i, &node);
+    st = ref_node_add(ref_grid_node(to), (REF_GLOB)(3 * i + 5), &node);
     if (REF_SUCCESS != st) break;
     for (c = 0; c < 3; c++) ref_node_xyz(ref_grid_node(to), c, node) = h_f(h_w[5 + 3 * i + c]);
     zero_aux(ref_grid_node(to), node);
@@ -225,7 +225,7 @@ int main(void) {
     } else if (0 == strcmp(op, "node") && h_nw == 4 && valid_fs(1, 3) && !interp && nnode < 100000) {
       REF_INT node;
       int c;
-      if (REF_SUCCESS != ref_node_add(ref_grid_node(from), nnode, &node) || node != nnode) return 5;
+      if (REF_SUCCESS != ref_node_add(ref_grid_node(from), (REF_GLOB)(3 * nnode + 5), &node) || node != nnode) return 5;
       for (c = 0; c < 3; c++) ref_node_xyz(ref_grid_node(from), c, node) = h_f(h_w[1 + c]);
       zero_aux(ref_grid_node(from), node);
       nnode++;
